@@ -1028,9 +1028,12 @@ func (e *AnimEncoder) increasePreviousDuration(durMS int) error {
 	}
 
 	e.prevMuxIndex = e.muxer.NumFrames() - 1
+	// The filler is now the previous frame: a later dispose-to-background
+	// decision applies to its 1x1 rectangle, not to the frame before it.
+	e.prevFrameRect = image.Rect(0, 0, 1, 1)
 	e.frameCount++
 	e.countSinceKeyframe++
-	// prevCanvas and prevFrameRect remain unchanged since the canvas is identical.
+	// prevCanvas remains unchanged since the canvas is identical.
 	return nil
 }
 
